@@ -1305,6 +1305,9 @@ pub fn suite_many_avps(out: &mut Out, tier: &str, rng: &mut Rng) {
             out.emit(json!({"op": "roundtrip", "kind": "msg", "v": m}));
             out.emit(json!({"op": "decode", "in": bytes_json(&wire), "opts": [true, true, true], "entry": "validate", "rdr": "slice"}));
             out.emit(json!({"op": "chain", "in": bytes_json(&wire), "opts": [true, true, true]}));
+            // the same message at a non-zero writer position, alone and as the second of two
+            out.emit(json!({"op": "encode", "kind": "msg", "v": m, "prefix": bytes_json(&rng.rbytes(1, 40)), "wr": if variant == 0 { "mon" } else { "vec" }}));
+            out.emit(json!({"op": "encode_seq", "items": [{"kind": "msg", "v": gen_control(rng, 2, 8)}, {"kind": "msg", "v": m}]}));
             // one bad record at a particular position among many
             let recs: Vec<Vec<u8>> = m["avps"].as_array().unwrap().iter().map(enc_avp).collect();
             let mut recs2 = recs.clone();
@@ -1314,5 +1317,52 @@ pub fn suite_many_avps(out: &mut Out, tier: &str, rng: &mut Rng) {
             let b = enc_control_raw(flag_word(true, true, true, false, false, 2), None, [1, 2, 3, 4], &body);
             out.emit(json!({"op": "ctl_records", "in": bytes_json(&b), "recs": recs2.iter().map(|r| bytes_json(r)).collect::<Vec<_>>()}));
         }
+    }
+}
+
+
+/// every small value (0..40) of every 8/16-bit field of every kind, other fields random: values that
+/// collide with enumerated codes, header sizes or flags inside the codec
+pub fn suite_small_values(out: &mut Out, tier: &str, rng: &mut Rng) {
+    for (ki, (_, name, prog)) in KINDS.iter().enumerate() {
+        let mut fi = 0usize;
+        for o in prog.iter() {
+            let is_small = matches!(o, Op::U8 | Op::U16);
+            if is_small {
+                let top = if tier == "thorough" { 300u64 } else { 40 };
+                for val in 0..=top {
+                    if matches!(o, Op::U8) && val > 255 {
+                        break;
+                    }
+                    let mut a = gen_avp_kind(rng, ki, 6);
+                    a["f"][fi] = json!(val);
+                    if *name == "ResultCode" && val % 2 == 0 {
+                        a["f"][1] = json!([]);
+                        a["f"][2] = json!([]);
+                    }
+                    out.emit(json!({"op": "roundtrip", "kind": "avp", "v": a}));
+                    let m = json!({"k": "Control", "length": 0, "tunnel_id": val, "session_id": rng.u16(), "ns": val, "nr": rng.u16(),
+                                   "avps": [gen_message_type(rng), a]});
+                    out.emit(json!({"op": "chain", "in": bytes_json(&enc_control(&m)), "opts": [true, true, true]}));
+                }
+            }
+            match o {
+                Op::Skip(_) => {}
+                Op::OptErr => fi += 2,
+                _ => fi += 1,
+            }
+        }
+    }
+    // small values of the message header fields
+    for val in 0..=40u16 {
+        let m = json!({"k": "Control", "length": val, "tunnel_id": val, "session_id": val, "ns": val, "nr": val, "avps": [gen_message_type(rng)]});
+        out.emit(json!({"op": "roundtrip", "kind": "msg", "v": m}));
+        let mut d = gen_data(rng, 6);
+        d["tunnel_id"] = json!(val);
+        d["session_id"] = json!(val);
+        if !d["ns_nr"].as_array().unwrap().is_empty() {
+            d["ns_nr"] = json!([[val, val]]);
+        }
+        out.emit(json!({"op": "roundtrip", "kind": "msg", "v": d}));
     }
 }
